@@ -194,6 +194,7 @@ struct C10
     std::set<std::string> known;
     std::string where;
     u8 canary[sim::kCanary];
+    bool converse = true; // off when structural fields were corrupted: extents are then unknown, safety only
 
     bool report(const std::string& cls, const OpSpec& op, const std::string& detail, u64 n, std::size_t opi)
     {
@@ -232,14 +233,14 @@ struct C10
         Outcome o = call_driver(*drv, rq, rs);
         sim::stats().count("c10.ops");
         fp->add((u64)o.kind);
-        const bool in_bounds = op.extent <= n;
+        const bool in_bounds = converse && op.extent <= n;
         sim::stats().tuple(std::string(drv->shape->name) + "|" + target_name(op.rq) + "|" + sim::out_name(o.kind) + "|" + (in_bounds ? "fits" : "cut"));
         if(rs.unsupported) return true;
         if(std::memcmp(p - sim::kCanary, canary, sim::kCanary) != 0) return report("underflow", op, "bytes before the view were modified", n, opi);
         if(o.kind == Out::TIMEOUT) return report("timeout", op, "did not return within the CPU budget", n, opi);
         if(o.kind == Out::OOB)
         {
-            if(o.off < 0) return report("underflow", op, "access at offset " + std::to_string(o.off) + " before the view", n, opi);
+            if(o.off < 0 && o.off >= -(long long)sim::kCanary) return report("underflow", op, "access at offset " + std::to_string(o.off) + " before the view", n, opi);
             // was it a check placed after the access? re-run with accessible slack behind the view
             const std::size_t slack = 1 << 16;
             u8* q = sim::arena_place((std::size_t)n, slack);
@@ -339,6 +340,7 @@ inline Result exec_c10(const Plan& plan)
     }
     std::vector<u8> bytes = f.bytes;
     const u64 N = bytes.size();
+    const std::vector<StructField> sf = struct_fields(sh, f);
     for(const Op& op : plan.ops)
     {
         if(res.violation) break;
@@ -364,6 +366,14 @@ inline Result exec_c10(const Plan& plan)
                         }
             if(!res.violation) c.run(ops[0], bytes, N, 0);
             sim::stats().count("fault.fired.truncate", points);
+        }
+        else if(op.name == "set" || op.name == "flip" || op.name == "stale")
+        {
+            // F2/F3/F4: hostile structural values / flipped bytes / stale tail under the op catalogue of the
+            // original shape; positions and counts the buffer now claims differ, so only the safety half applies
+            u64 nn = N;
+            apply_byte_fault(op, sh, f, sf, bytes, nn, fs);
+            c.converse = false;
         }
         else if(op.name == "one")
         {
@@ -412,6 +422,37 @@ inline Plan gen_c10_wire(u64 seed, const std::string& tier)
     p.seti("walks", (long long)(wl.next() >> 40));
     if(fl.chance(1, 4)) p.seti("extend", 1);
     p.set("mode", "enumerate-truncations-x-op-catalogue");
+    if(fl.chance(1, 4))
+    {
+        // header contents steering dynamic offsets: counts / lengths / block lengths nudged or hostile
+        p.set("mode", "corrupted-structural-fields-x-truncations-x-op-catalogue (safety only)");
+        const int nf = (int)fl.range(1, 2);
+        for(int i = 0; i < nf; i++)
+        {
+            Op s;
+            if(fl.chance(1, 5))
+            {
+                s.name = "flip";
+                s.a = {(long long)fl.below(4096), (long long)(1u << fl.below(8))};
+            }
+            else
+            {
+                s.name = "set";
+                long long v;
+                switch(fl.below(6))
+                {
+                case 0: v = (long long)fl.below(4); break;
+                case 1: v = (long long)fl.range(4, 40); break;
+                case 2: v = 254; break;
+                case 3: v = 65534; break;
+                case 4: v = (long long)(fl.next() & 0xffffffffULL); break;
+                default: v = -2; break; // all ones - 1 in any width
+                }
+                s.a = {(long long)fl.below(64), v};
+            }
+            p.ops.push_back(s);
+        }
+    }
     Op o;
     o.name = "sweep_ops";
     p.ops.push_back(o);
@@ -425,6 +466,8 @@ inline Plan refine_c10(const Plan& p, const Result& r)
     if(kp == std::string::npos || op == std::string::npos) return p;
     Plan q;
     q.head = p.head;
+    for(auto& x : p.ops)
+        if(x.name != "sweep_ops" && x.name != "one" && x.name != "sample_ops") q.ops.push_back(x);
     Op o;
     o.name = "one";
     o.a = {std::strtoll(r.detail.c_str() + op + 4, nullptr, 10), std::strtoll(r.detail.c_str() + kp + 3, nullptr, 10)};
